@@ -91,10 +91,29 @@ func (c *X2Config) events(w *World) []XEvent {
 			evs = append(evs, XEvent{Kind: "S", P: p})
 		}
 	}
-	for _, rs := range w.ParkedRuns() {
+	// runs of jobs the runner still knows first, then orphans (runs of a job a save has purged while it executes): the
+	// position of an event in the alphabet must not depend on when the purged job was accepted
+	parked := w.ParkedRuns()
+	sort.SliceStable(parked, func(a, b int) bool {
+		oa := d.Job(w.Mocks[parked[a].inst-1].job) == nil
+		ob := d.Job(w.Mocks[parked[b].inst-1].job) == nil
+		return !oa && ob
+	})
+	for _, rs := range parked {
 		evs = append(evs, XEvent{Kind: "Dok", Job: w.Mocks[rs.inst-1].job, Task: rs.task})
 	}
-	if len(w.S.PendingTimers()) > 0 {
+	advMatters := len(w.S.PendingTimers()) > 0
+	if !advMatters && d.Defs != nil {
+		// time also matters without a pending timer: a finished job that has not yet outlived its retention period
+		now := w.S.Elapsed()
+		for i := range d.Jobs {
+			j := &d.Jobs[i]
+			if rp := w.maxRetentionPeriod(j.Pipeline); rp > 0 && now-j.Created <= rp {
+				advMatters = true
+			}
+		}
+	}
+	if advMatters {
 		for _, a := range c.AdvSteps {
 			evs = append(evs, XEvent{Kind: "Adv", D: a})
 		}
@@ -107,7 +126,7 @@ func (c *X2Config) events(w *World) []XEvent {
 		}
 	}
 	if c.FailOK {
-		for _, rs := range w.ParkedRuns() {
+		for _, rs := range parked {
 			evs = append(evs, XEvent{Kind: "Dfail", Job: w.Mocks[rs.inst-1].job, Task: rs.task})
 		}
 	}
